@@ -56,6 +56,10 @@ mod pty {
         Pause,
         /// the peer reads again
         Resume,
+        /// SIGWINCH sent to the session (polling) thread: the next poll picks it up — a `Resize` event in ioctl
+        /// size mode, the size query queued by the poll loop in escape-sequence size mode. Never a reason to
+        /// lose output.
+        Winch,
     }
 
     impl TOp {
@@ -71,6 +75,7 @@ mod pty {
                 TOp::ImageErase(n) => format!("e:{n}"),
                 TOp::Pause => "P".into(),
                 TOp::Resume => "R".into(),
+                TOp::Winch => "S".into(),
             }
         }
         fn parse(t: &str) -> Option<TOp> {
@@ -80,6 +85,7 @@ mod pty {
                 ["d"] => TOp::Drop,
                 ["P"] => TOp::Pause,
                 ["R"] => TOp::Resume,
+                ["S"] => TOp::Winch,
                 ["i", n] => TOp::Image(n.parse().ok()?),
                 ["e", n] => TOp::ImageErase(n.parse().ok()?),
                 ["W", l, g] => TOp::Write(l.parse().ok()?, g.parse().ok()?),
@@ -138,26 +144,47 @@ mod pty {
     /// commands that never contain the DA1 / size query; `Face` / `FaceModify` go through the encoder's internal
     /// chunk buffer, `DecModeSet` / `Title` through `write!`
     fn command(n: usize) -> TerminalCommand {
-        use surf_n_term::{DecMode, Face, FaceModify};
-        match n % 11 {
-            0 => TerminalCommand::CursorTo(Position { row: n / 11 % 50, col: n % 131 }),
-            1 => TerminalCommand::Char(char::from_u32(0x41 + (n as u32 / 11) % 26).unwrap()),
+        use surf_n_term::{DecMode, Face, FaceModify, TerminalColor};
+        let m = n / 24;
+        match n % 24 {
+            0 => TerminalCommand::CursorTo(Position { row: m % 50, col: n % 131 }),
+            1 => TerminalCommand::Char(char::from_u32(0x41 + (m as u32) % 26).unwrap()),
             2 => TerminalCommand::EraseLine,
             3 => TerminalCommand::CursorSave,
             4 => TerminalCommand::CursorRestore,
-            5 => TerminalCommand::EraseChars(n / 11 % 9 + 1),
+            5 => TerminalCommand::EraseChars(m % 9 + 1),
             6 => TerminalCommand::Title(format!("t{n}")),
             7 => TerminalCommand::Face(
-                ["fg=#aabbcc,bg=#112233", "fg=#010203,bold", "bg=#fefefe,italic,underline", "bold,italic"][n / 11 % 4].parse::<Face>().unwrap_or_default(),
+                ["fg=#aabbcc,bg=#112233", "fg=#010203,bold", "bg=#fefefe,italic,underline", "bold,italic"][m % 4].parse::<Face>().unwrap_or_default(),
             ),
-            8 => TerminalCommand::FaceModify(match n / 11 % 4 {
+            8 => TerminalCommand::FaceModify(match m % 4 {
                 0 => FaceModify { fg: Some(surf_n_term::RGBA::new(0x44, 0x55, 0x66, 255)), ..Default::default() },
                 1 => FaceModify { bold: Some(true), ..Default::default() },
                 2 => FaceModify { underline: Some(surf_n_term::UnderlineStyle::Curly), italic: Some(false), ..Default::default() },
                 _ => FaceModify { reset: true, bg: Some(surf_n_term::RGBA::new(10, 11, 12, 255)), ..Default::default() },
             }),
-            9 => TerminalCommand::DecModeSet { enable: n / 11 % 2 == 0, mode: [DecMode::AutoWrap, DecMode::VisibleCursor, DecMode::MouseSGR][n / 11 % 3] },
-            _ => TerminalCommand::Char(['é', 'ж', '→', '😀', 'x'][n / 11 % 5]),
+            9 => TerminalCommand::DecModeSet { enable: m % 2 == 0, mode: [DecMode::AutoWrap, DecMode::VisibleCursor, DecMode::MouseSGR][m % 3] },
+            10 => TerminalCommand::Char(['é', 'ж', '→', '😀', 'x'][m % 5]),
+            // the rest of the enum (Image / ImageErase / Raw have ops of their own)
+            11 => TerminalCommand::Reset,
+            12 => TerminalCommand::FaceGet,
+            13 => TerminalCommand::DecModeGet([DecMode::AutoWrap, DecMode::BracketedPaste][m % 2]),
+            14 => TerminalCommand::CursorGet,
+            15 => TerminalCommand::CursorMove { row: (m % 7) as i32 - 3, col: (m % 5) as i32 - 2 },
+            16 => TerminalCommand::EraseLineLeft,
+            17 => TerminalCommand::EraseLineRight,
+            18 => TerminalCommand::EraseScreen,
+            19 => TerminalCommand::Scroll((m % 9) as i32 - 4),
+            20 => TerminalCommand::ScrollRegion { start: m % 5, end: 10 + m % 7 },
+            21 => TerminalCommand::Termcap(vec!["TN".to_string(), "Co".to_string()]),
+            22 => TerminalCommand::Color {
+                name: [TerminalColor::Background, TerminalColor::Foreground, TerminalColor::Palette(m % 16)][m % 3],
+                color: if m % 2 == 0 { None } else { Some(surf_n_term::RGBA::new(1, 2, 3, 255)) },
+            },
+            // (DeviceAttrs is the one variant left out: the peer answers it, `dispose` takes the first answer for the
+            // answer to its own closing DA1, restores the tty, and the real answer is then ECHOED by the restored
+            // line discipline onto the master — harness noise, not output of the terminal)
+            _ => TerminalCommand::KeyboardLevel(m % 3),
         }
     }
 
@@ -166,13 +193,15 @@ mod pty {
     /// that withholds, buffers or reorders output is seen by C16); a disagreement with the crate's encoder on
     /// the *spelling* is C05's business: it is recorded in the evidence and the encoder's spelling is used.
     fn command_table(n: usize) -> Option<Vec<u8>> {
-        match n % 11 {
-            0 => Some(format!("\x1b[{};{}H", n / 11 % 50 + 1, n % 131 + 1).into_bytes()),
-            1 => Some(vec![(0x41 + (n / 11) % 26) as u8]),
+        let m = n / 24;
+        match n % 24 {
+            0 => Some(format!("\x1b[{};{}H", m % 50 + 1, n % 131 + 1).into_bytes()),
+            1 => Some(vec![(0x41 + m % 26) as u8]),
             2 => Some(b"\x1b[2K".to_vec()),
             3 => Some(b"\x1b7".to_vec()),
             4 => Some(b"\x1b8".to_vec()),
-            10 => Some(["é", "ж", "→", "😀", "x"][n / 11 % 5].as_bytes().to_vec()),
+            10 => Some(["é", "ж", "→", "😀", "x"][m % 5].as_bytes().to_vec()),
+            11 => Some(b"\x1bc".to_vec()),
             _ => None,
         }
     }
@@ -618,6 +647,8 @@ mod pty {
         let mut draining = false;
         let mut poll_error: Option<String> = None;
         let mut op_index = 0usize;
+        let mut winch_pending = false;
+        let mut model_traceable = true;
         let mut table_agree = 0usize;
         let mut table_differ = 0usize;
         // bytes that have certainly started transmission: the larger of the crate's own count and what the master
@@ -628,6 +659,7 @@ mod pty {
         loop {
             let op = match queue.pop_front() {
                 Some(op) => op,
+                None if end_by_drop && winch_pending => TOp::Poll(0), // a SIGWINCH is always picked up before the drop
                 None => {
                     shared.pause.store(false, Ordering::SeqCst);
                     // final drain: poll until nothing is pending
@@ -651,6 +683,10 @@ mod pty {
             let step = guarded(|| match &op {
                 TOp::Pause => shared.pause.store(true, Ordering::SeqCst),
                 TOp::Resume => shared.pause.store(false, Ordering::SeqCst),
+                TOp::Winch => {
+                    unsafe { libc::pthread_kill(libc::pthread_self(), libc::SIGWINCH) };
+                    winch_pending = true;
+                }
                 TOp::Image(n) | TOp::ImageErase(n) => {
                     let erase = matches!(op, TOp::ImageErase(_));
                     let p = mirror.bytes(*n, erase);
@@ -732,6 +768,15 @@ mod pty {
                 }
                 TOp::Poll(ms) => {
                     events.push(Evt::Mark);
+                    if winch_pending {
+                        winch_pending = false;
+                        if esc {
+                            // the poll loop queues the size query itself (library bytes, behind everything queued)
+                            events.push(Evt::LibPayload(payloads.len()));
+                            payloads.push(SIZE_QUERY.to_vec());
+                            model_traceable = false; // the line protocol has no token for writes injected by poll
+                        }
+                    }
                     let r = match path {
                         0 => term.poll(Some(Duration::from_millis(*ms))),
                         1 => Terminal::poll(&mut &mut term, Some(Duration::from_millis(*ms))),
@@ -792,7 +837,7 @@ mod pty {
                 ));
             }
             outcome.table = (table_agree, table_differ);
-            if !matches!(op, TOp::Pause | TOp::Resume) && !(matches!(op, TOp::Image(_) | TOp::ImageErase(_) | TOp::Exec(_) | TOp::Raw(..)) && payloads.last().map(|p| p.is_empty()).unwrap_or(false)) {
+            if !matches!(op, TOp::Pause | TOp::Resume | TOp::Winch) && !(matches!(op, TOp::Image(_) | TOp::ImageErase(_) | TOp::Exec(_) | TOp::Raw(..)) && payloads.last().map(|p| p.is_empty()).unwrap_or(false)) {
                 obs.push(format!("{}/{}/{}", term.stats().send - s0, frames_after, verif_c16::queue_len(&term)));
             }
             if poll_error.is_some() {
@@ -815,6 +860,11 @@ mod pty {
             }
             events.push(Evt::Payload(payloads.len()));
             payloads.push(closing.clone());
+            if esc && winch_pending {
+                // a SIGWINCH not yet picked up: the polls of `dispose` may queue the size query behind the closing sequence
+                events.push(Evt::LibPayload(payloads.len()));
+                payloads.push(SIZE_QUERY.to_vec());
+            }
             // the peer drains as fast as it can so that `dispose` (1 s per poll) can finish
             shared.pause.store(false, Ordering::SeqCst);
             shared.fast.store(true, Ordering::SeqCst);
@@ -836,13 +886,13 @@ mod pty {
                     // `dispose` gives up when the DA1 answer does not arrive within a second and then flushes the
                     // tty: an incomplete stream is then legitimate, but it must still be a prefix (safety)
                     match oracle(&payloads, &events, &got, false) {
-                        Ok(_) if !got.ends_with(&closing) => outcome.inconclusive = Some("dispose-did-not-finish".into()),
+                        Ok(_) if find(&got, &closing, 0).is_none() => outcome.inconclusive = Some("dispose-did-not-finish".into()),
                         _ => outcome.failure = Some((
                             "terminal dropped with output in flight: the master did not receive the frame in flight completely, then the closing sequence".into(), exp, g)),
                     }
                 }
             }
-            if want_trace && outcome.inconclusive.is_none() && outcome.failure.is_none() && got.len() >= sent_stats {
+            if want_trace && model_traceable && outcome.inconclusive.is_none() && outcome.failure.is_none() && got.len() >= sent_stats {
                 obs.push(format!("end {}/{}", fnv(&got[..sent_stats]), qlen));
                 outcome.trace = Some((req, obs.join(" ")));
             }
@@ -880,7 +930,7 @@ mod pty {
                 outcome.failure = Some(("stats().send differs from the number of bytes the master received".into(),
                     format!("{}", got.len()), format!("{}", term.stats().send - s0)));
             }
-            if want_trace && complete {
+            if want_trace && complete && model_traceable {
                 obs.push(format!("end {}/{}", fnv(&got), verif_c16::queue_len(&term)));
                 outcome.trace = Some((req, obs.join(" ")));
             }
@@ -963,7 +1013,7 @@ mod pty {
             } else if r < 52 {
                 if rng.chance(3, 4) { TOp::Image(rng.below(12) as usize) } else { TOp::ImageErase(rng.below(12) as usize) }
             } else if r < 54 {
-                if rng.chance(1, 2) { TOp::Pause } else { TOp::Resume }
+                match rng.below(3) { 0 => TOp::Pause, 1 => TOp::Resume, _ => TOp::Winch }
             } else if r < 68 {
                 TOp::Flush
             } else if r < 92 {
@@ -1038,6 +1088,13 @@ mod pty {
             // the same with the frame in flight still open (no flush after it) and an image command inside
             (vec![TOp::Write(50, 1), TOp::Flush, TOp::Poll(2), TOp::Pause, TOp::Write(300_000, 13), TOp::Image(3), TOp::Write(100, 14), TOp::Poll(0),
                   TOp::Write(70, 15)], 0, true),
+            // a backlog of frames behind a frame in flight, then Reset in the middle of the next frame, and a
+            // SIGWINCH picked up by a poll: nothing of this may cost a byte (only the session's own frames_drop may)
+            (vec![TOp::Pause, TOp::Write(100_000, 21), TOp::Flush, TOp::Poll(0), TOp::Write(3_000, 22), TOp::Flush, TOp::Write(2_000, 23), TOp::Flush,
+                  TOp::Write(200, 24), TOp::Exec(11), TOp::Write(50, 25), TOp::Exec(11 + 24), TOp::Flush, TOp::Winch, TOp::Poll(0), TOp::Write(60, 26),
+                  TOp::Winch, TOp::Resume, TOp::Poll(2), TOp::Exec(23), TOp::Exec(23 + 24), TOp::Poll(1)], 0, false),
+            (vec![TOp::Pause, TOp::Write(50_000, 31), TOp::Flush, TOp::Poll(0), TOp::Write(700, 32), TOp::Flush, TOp::Write(800, 33), TOp::Winch,
+                  TOp::Poll(0), TOp::Write(90, 34)], 0, true),
             // dropped with an empty queue, and with frames that have not started
             (vec![TOp::Write(10, 1), TOp::Flush, TOp::Poll(5), TOp::Poll(5)], 0, true),
             (vec![TOp::Pause, TOp::Write(10, 1), TOp::Flush, TOp::Write(20, 2), TOp::Flush, TOp::Write(30, 3)], 0, true),
